@@ -1,6 +1,7 @@
 """C08 — Reserved metador_* namespace is invisible and untouchable for users."""
 import itertools
 import json
+import re
 
 import h5py
 import numpy as np
@@ -216,6 +217,16 @@ def probe(sess, op):
                 if val != e:
                     internal = api != "len" and any(str(x).startswith("metador_") for x in val)
                     raise Violation(f"C08:listing-wrong:{api}" + (":internal-visible" if internal else ""), f"{where}: {api} at {gp} -> {val}", e)
+            # the text forms may state a member count; if they do it is the user-visible one
+            forms = [("repr", repr(g)), ("str", str(g)), ("format", f"{g}")]
+            if gp == "/":  # the root also as a group node
+                forms += [("repr", repr(mc["/"])), ("str", str(mc["/"])), ("format", f"{mc['/']:>5}".strip())]
+            for form, txt in forms:
+                mm = re.search(r"\((\d+) members?\)", txt)
+                if mm:
+                    sess.classes.add("text_form_states_member_count")
+                    if int(mm.group(1)) != len(children):
+                        raise Violation(f"C08:listing-wrong:{form}-member-count", f"{where}: {form} of {gp} -> {txt}", f"{len(children)} members")
             vis, visi = [], []
             g.visit(vis.append)
             g.visititems(lambda n, o: visi.append((n, o.name)))
